@@ -232,17 +232,13 @@ def r3_r4_r5_pop(ctx, F):
               bad='JobBroker::pop does not re-increment open_count after a wake-up on every path: the '
                   'count of active workers drifts and the market is closed while work is pending')
     # R5 last worker
-    last = None
-    for sw in b.switches:
-        on = sw.on
-        if on.kind == 'bin' and on.key[0] == 'Eq':
-            ops = [noref(x) for x in on.key[1:]]
-            if any(o.fields() and o.fields()[-1] == '.open_count' for o in ops) and \
-                    any(o.kind == 'const' and o.key == 0 for o in ops):
-                last = sw
-    if last is None:
+    from common import edges_where
+    lasts = edges_where(b, lambda v: noref(v).fields()[-1:] == ('.open_count',),
+                        lambda v: noref(v).kind == 'const' and noref(v).key == 0, 'eq', with_blocks=True)
+    if len(lasts) != 1:
         raise AnchorMissing('pop: open_count == 0 test not found')
-    te = [e[1] for e in last.edges_for(True)]
+    last_bb, last_edges = lasts[0]
+    te = [e[1] for e in last_edges]
     na = [c.bb for c in b.calls_to('Condvar::notify_all')]
     r1 = b.reach(te, cut_blocks=na)
     ctx.check(bool(na) and not any(x in r1 for x in b.returns), 'C05-R5', 'last-worker-notifies-all', b,
@@ -255,7 +251,7 @@ def r3_r4_r5_pop(ctx, F):
               good='the last active worker closes the market before returning empty',
               bad='JobBroker::pop: the last active worker returns without closing the market: woken '
                   'workers find it open, find no work and go back to sleep')
-    ctx.check(b.dominates(last.bb, wait.bb), 'C05-R5', 'test-before-wait', b,
+    ctx.check(b.dominates(last_bb, wait.bb), 'C05-R5', 'test-before-wait', b,
               good='the last-worker test dominates the wait',
               bad='JobBroker::pop can wait without having tested whether it is the last active worker')
 
